@@ -150,6 +150,7 @@ class Agent:
       spurious_nxt per-mille probability of NXT while nothing is presented (not a legal PHY)
       tx_gap_min   minimum number of tx_valid-low cycles between packets (>= 1)
       start_quiet  number of initial cycles in which the PHY and the transmitter stay silent
+      abort_tx     whether the PHY may raise DIR in the middle of a link transmission
       tx_wait_idle the transmitter starts a packet only when the translator reports not busy and the
                    control inputs have been stable for 4 cycles
     """
@@ -158,7 +159,7 @@ class Agent:
         self.rng = rng
         self.p = dict(rx_rate=15, abort_rate=0, nxt_delay=3, throttle=30, tx_rate=30, max_len=12,
                       ctrl_mode="const", ctrl_rate=10, illegal_rx=False, spurious_nxt=0, tx_gap_min=1,
-                      start_quiet=0, rx_max_items=14, tx_wait_idle=False)
+                      start_quiet=0, rx_max_items=14, tx_wait_idle=False, abort_tx=True)
         self.p.update(params or {})
         self.ctrl = dict(ctrl0 or DEFAULT_CTRL)
         # PHY state
@@ -257,7 +258,8 @@ class Agent:
                     pass                 # at least one DIR-low cycle between two episodes
                 elif self.phy == "idle" and bus == 0 and rng.below(1000) < p["rx_rate"]:
                     start_ep = True
-                elif (self.phy != "idle" or bus != 0) and rng.below(1000) < p["abort_rate"]:
+                elif (self.phy != "idle" or bus != 0) and (p["abort_tx"] or self.phy != "tx") \
+                        and rng.below(1000) < p["abort_rate"]:
                     start_ep = True
                     self.tags.add("phy-abort-" + self.phy)
             if start_ep:
